@@ -82,14 +82,21 @@ def roundtrip_check(t: Tally, label, defn, packets, case, root=None):
     return c0
 
 
+NS_ROTATION = ("xtce", "none", "default", "q")
+
+
 def check_spec(t: Tally, doc, packets, case):
+    # the namespace convention the definition is loaded / built in (and therefore written in and re-read in) rotates with the case
+    import zlib
+    style = case.get("ns_style") or NS_ROTATION[zlib.crc32(repr(sorted(case.items(), key=str)).encode()) % 4]
+    case = {**case, "ns_style": style}
     try:
-        A = load_doc(doc)
+        A = load_doc(doc, style)
     except Exception as e:  # noqa: BLE001
         t.violation({"kind": "load-failed", "exc": type(e).__name__}, case, observed=str(e)[:300])
         return
     try:
-        B = build_objects(doc)
+        B = build_objects(doc, style)
     except Exception as e:  # noqa: BLE001
         t.violation({"kind": "objects-failed", "exc": type(e).__name__}, case, observed=str(e)[:300])
         B = None
@@ -187,6 +194,11 @@ def extra_items(tier):
     items.append(("attrs", 0))
     for v in range(12):
         items.append(("collide", v))
+    # number tables: n distinct numbers between a -0.0 and a 0.0 (both orders), as a spline table and as polynomial coefficients
+    for n in (20, 130, 200):
+        for mirrored in (False, True):
+            for kind in ("spline", "poly"):
+                items.append(("numbers", (n, mirrored, kind)))
     return items
 
 
@@ -203,12 +215,28 @@ def extra_doc(item):
         return c07.mk_doc(c07.binary_variants("quick"), 3, "Binary"), []
     if fam == "c08":
         return c08.doc_for(list(range(x[1], x[2])), x[0]), []
+    if fam == "numbers":
+        return numbers_doc(*x), [docs_mod().packet_for(0, "0000000000000001"), docs_mod().packet_for(0, "0000000000000000")]
     if fam == "collide":
         # one name shared by a parameter type, a parameter and a container
         from mc.checks.c17 import collide_doc
         mk = docs_mod().packet_for
         return collide_doc(x), [mk(1, "10100101" + "1100" + "0011" + "01011010"), mk(2, "0110" + "1001" + "11110000")]
     return attrs_doc(), []
+
+
+def numbers_doc(n, mirrored, kind):
+    """One 16-bit field calibrated by a table of n numbers whose first calibrated value is -0.0 and whose last is 0.0 (mirrored: the other way
+    round); everything in between is distinct."""
+    from mc.spec import IntEnc, Param, Poly, PType, Spline
+    first, last = (0.0, -0.0) if mirrored else (-0.0, 0.0)
+    mids = [1.5 * k for k in range(1, n - 1)]
+    if kind == "spline":
+        cal = Spline(tuple((float(i + 1), c) for i, c in enumerate([first] + mids + [last])), 0, True)
+    else:
+        cal = Poly(tuple((c, i) for i, c in enumerate([first] + [m / 1e6 for m in mids[:40]] + [last])))
+    pt = PType("NT", "Float", IntEnc(16, default_cal=cal))
+    return docs_mod().selector_doc([([pt], [Param("NP", "NT")], [("p", "NP")])])
 
 
 def docs_mod():
